@@ -11,10 +11,11 @@ SIM = os.path.join(VERIF, 'sim')
 REPLAYS = os.environ.get('VERIF_REPLAYS', os.path.join(VERIF, 'replays'))
 EVIDENCE = os.environ.get('VERIF_EVIDENCE', os.path.join(VERIF, 'evidence'))
 CC, CXX = 'clang', 'clang++'
-TRAPS = ['malloc', 'free', 'realloc', 'calloc', 'strdup', 'aligned_alloc', 'posix_memalign']
+TRAPS = ['malloc', 'free', 'realloc', 'calloc', 'strdup', 'aligned_alloc', 'posix_memalign',
+         'strndup', '__strdup', 'reallocarray', 'memalign', 'valloc', 'getline', 'open_memstream', 'asprintf', 'vasprintf']   # libc calls that hand out or take heap blocks
 # libc facilities that keep hidden per-process state (C17): a call from library code is trapped when it executes
 TRAPS_MT = ['gmtime', 'localtime', 'ctime', 'asctime', 'strtok', 'rand', 'srand', 'random', 'srandom', 'drand48', 'lrand48', 'mrand48', 'setlocale', 'strerror', 'tmpnam', 'ecvt', 'fcvt', 'strsignal', 'setenv', 'putenv', 'unsetenv', 'getpwnam', 'getpwuid', 'ttyname', 'basename', 'dirname', 'nl_langinfo', 'localeconv', 'wcstombs', 'mbstowcs', 'mblen', 'mbtowc', 'wctomb',
-            'signal', 'sigaction', 'sigprocmask', 'umask', 'chdir', 'tzset', 'srand48', 'alarm', 'atexit']
+            'signal', '__sysv_signal', 'bsd_signal', '__xpg_basename', 'sigaction', 'sigprocmask', 'umask', 'chdir', 'tzset', 'srand48', 'alarm', 'atexit']
 
 def log(*a):
     print(*a, file=sys.stderr, flush=True)
